@@ -1014,11 +1014,62 @@ def m_minmax(which):
     return f
 
 
+class SBytes(Abstract):
+    """the UTF-8 encoding of a shaped text: kept as the text itself (UTF-8 is an injective homomorphism on
+    strings, so concatenation and equality of the encodings are concatenation and equality of the texts)"""
+    pytype = bytes
+    _immutable = True
+
+    def __init__(self, s):
+        self.s = s
+
+    @staticmethod
+    def text_of(other):
+        if isinstance(other, SBytes):
+            return other.s
+        if isinstance(other, (bytes, bytearray)):
+            try:
+                return bytes(other).decode("utf_8")
+            except UnicodeDecodeError:
+                return None
+        return None
+
+    def p_binop(self, it, op, other, reflected):
+        if op != "Add":
+            return NotImplemented
+        o = SBytes.text_of(other)
+        if o is None:
+            return NotImplemented
+        return SBytes(binop(it, "Add", o, self.s) if reflected else binop(it, "Add", self.s, o))
+
+    def p_eq(self, it, other):
+        o = SBytes.text_of(other)
+        if o is None:
+            return False
+        return equal(it, self.s, o)
+
+    def p_getattr(self, it, name):
+        if name == "decode":
+            def decode(encoding="utf-8", errors="strict"):
+                if str(encoding).lower().replace("-", "_") not in ("utf_8", "utf8"):
+                    raise Unsupported(f"decode({encoding}) of symbolic bytes")
+                return self.s
+            return decode
+        raise Unsupported(f"bytes.{name} on symbolic bytes")
+
+    def p_isinstance(self, it, t):
+        return issubclass(bytes, t) if isinstance(t, type) else any(issubclass(bytes, x) for x in t)
+
+
 def m_bytes(it, args, kw):
     if all(not is_sym(a) for a in args):
         return it.native(bytes, list(args), kw)
     s = args[0]
     enc = args[1] if len(args) > 1 else kw.get("encoding")
+    if isinstance(s, SIte):
+        s = it.force(s)
+    if isinstance(s, SStr) and str(enc).lower().replace("-", "_") in ("utf_8", "utf8") and getattr(it, "shaped_bytes", False):
+        return SBytes(s)
     f = z3.Function("encode_" + str(enc).replace("-", "_"), V, V)
     if isinstance(s, SVal):
         return SVal(bytes, f(s.e), {"eq": "term", "decoded": s})
